@@ -82,6 +82,17 @@ impl Ctx {
     }
 
     fn crash_at(&self, op: usize, poll: usize) -> u64 {
+        // the clock-jump plan is armed through the same door: every guarded call asks for
+        // its crash point first
+        match self
+            .spec
+            .jumps
+            .iter()
+            .find(|j| j.thread == self.me() && j.op == op && j.poll == poll)
+        {
+            Some(j) => hook::arm_jump(j.step, j.ms),
+            None => hook::arm_jump(0, 0),
+        }
         self.spec
             .crashes
             .iter()
@@ -710,6 +721,17 @@ impl Ctx {
                 repl,
                 n,
             } => self.do_soak(i, *slot, *method, input, repl, *n),
+            Op::ClockAdvance { ms } => {
+                crate::clock::jump_ms(*ms);
+                wlock(&self.world).rec.clock_jumps += 1;
+                self.log(format!(
+                    "t={} T{} #{} simulated clock +{}ms",
+                    now(),
+                    self.me(),
+                    i,
+                    ms
+                ));
+            }
             Op::DebugFmt { slot } => {
                 let obj = self.get_obj(*slot);
                 self.log(format!(
@@ -741,6 +763,8 @@ fn thread_main(mut ctx: Ctx) {
         .tid
         .store(sched::gettid(), Ordering::Relaxed);
     hook::attach(Some(ctx.sim.clone()), ctx.spec.mask());
+    crate::clock::set_sim_thread(true);
+    let _ = hook::take_jumps_fired();
     ctx.sim.start();
     let spec = ctx.spec.clone();
     for (i, op) in spec.scripts[idx].iter().enumerate() {
@@ -761,6 +785,7 @@ fn thread_main(mut ctx: Ctx) {
             *a += *b;
         }
         w.rec.steps += hook::total_steps();
+        w.rec.clock_jumps += hook::take_jumps_fired();
         if hook::did_cold_init() {
             w.rec.cold = true;
             w.rec.cold_init_thread = idx as i64;
@@ -769,6 +794,8 @@ fn thread_main(mut ctx: Ctx) {
     let sim = ctx.sim.clone();
     drop(ctx);
     hook::attach(None, 0);
+    hook::arm_jump(0, 0);
+    crate::clock::set_sim_thread(false);
     sim.exit();
 }
 
